@@ -461,6 +461,11 @@ func canonTimed(g graph.Graph) (p []int, class, what string) {
 		msg string
 		pan bool
 	}
+	if atomic.LoadInt64(&canonHangs) >= 6 {
+		// every labelling that does not come back leaks a goroutine that keeps a core busy; after six of them the
+		// remaining timed labellings of this run are not started (they are reported under the same classifier)
+		return nil, "canonical/does-not-terminate", "not evaluated: six earlier labellings were still running at their 90 s deadline"
+	}
 	ch := make(chan res, 1)
 	go func() {
 		var q []int
@@ -474,9 +479,12 @@ func canonTimed(g graph.Graph) (p []int, class, what string) {
 		}
 		return r.p, "", ""
 	case <-time.After(90 * time.Second):
-		return nil, "canonical/does-not-terminate", "no result within 90s"
+		atomic.AddInt64(&canonHangs, 1)
+		return nil, "canonical/does-not-terminate", "no result within 90s (graphs of this size are labelled in milliseconds on the pinned tree)"
 	}
 }
+
+var canonHangs int64
 
 func egCanon(g *EG) (string, string, string) {
 	p, cl, what := canonTimed(libGraphFromEG(g, "dense"))
